@@ -13,6 +13,7 @@ VARIABLE l
 tvars == <<bvars, l>>
 
 Trace == ndJsonDeserialize(IOEnv.TRACE)
+EnvDeviations == IF "KF" \in DOMAIN IOEnv /\ IOEnv.KF # "" THEN {IOEnv.KF} ELSE {}
 StopAt == IF "STOPAT" \in DOMAIN IOEnv THEN atoi(IOEnv.STOPAT) ELSE 0
 
 ev == Trace[l]
